@@ -12,6 +12,8 @@ import (
 
 	"verifharness/hxconn"
 	"verifharness/hxlib"
+
+	"qchen.fun/fatchoy/qnet"
 )
 
 type sc = hxconn.Scenario
@@ -144,6 +146,10 @@ func genForced(r *hxlib.Rand) sc {
 	return s
 }
 
+// findings of the family peer-still-writing that are recorded as observations (see search.go)
+var observeOnly = map[string]bool{"delivery:lost-at-close:peer-still-writing": true, "counters:sent": true}
+var observed = map[string]bool{}
+
 func runOne(r *hxlib.Run, s sc, mutants bool) {
 	if hxconn.GiveUp() && r.Replay == "" {
 		r.Count("skipped-after-confirmed-hangs")
@@ -196,6 +202,14 @@ func runOne(r *hxlib.Run, s sc, mutants bool) {
 			r.Count("abandoned-run(hang; judged by C04)")
 			continue
 		}
+		if observeOnly[f.Key] && s.Name == "peer-still-writing" {
+			r.Count("observation:" + f.Key)
+			if !observed[f.Key] {
+				observed[f.Key] = true
+				r.Note("observation on this tree (family peer-still-writing, reported as an observation, not through the oracle): %s", f.What)
+			}
+			continue
+		}
 		r.Fail(f.Key, f.What, s)
 	}
 	hxconn.Emit(r, o)
@@ -227,8 +241,22 @@ func main() {
 	if r.Replay != "" {
 		var s sc
 		r.LoadReplay(&s)
-		runOne(r, s, false)
+		reps := 5 // (a free-running scenario is not a function of its description alone: look again before giving up)
+		if s.Peer.Tail == "stall" {
+			qnet.TConnReadTimeout = 1 // the peer stalls 1.4 s in the middle of a frame
+			reps = 3                  // (real time decides where the read deadline falls: look again before giving up)
+		}
+		for k := 0; k < reps && !r.Failed(); k++ {
+			runOne(r, s, false)
+		}
 		return
+	}
+	if r.Search {
+		searchLegs(r)
+		if r.Failed() {
+			r.Note("the search legs found a failing input; the ordinary generators were not run again")
+			return
+		}
 	}
 	// the smallest counter-example of the flush defect first: 2 queued packets at Close
 	fixed := []sc{
